@@ -221,6 +221,8 @@ func conv(v any) any {
 			t[i] = Tag(p)
 		}
 		return t
+	case interface{ Name() string }:
+		return x.Name()
 	case error:
 		return x.Error()
 	case fmt.Stringer:
